@@ -1,5 +1,5 @@
 """C18 (Schwab conversion keeps every relevant row, emits valid DSL) and C19 (RSU vest lookup)."""
-import json, re, datetime, binascii, itertools
+import json, re, os, datetime, binascii, itertools, subprocess, shutil
 from fractions import Fraction as F
 from collections import Counter, defaultdict
 from . import run, build, compare, ledger
@@ -187,12 +187,36 @@ def simple_symbols(rows):
     return all(isinstance(r.get("Symbol"), str) and re.fullmatch(r"[A-Za-z0-9]+", r["Symbol"].strip() or "x") for r in rows
                if (r.get("Action") or "").strip() in ("Buy", "Sell", "Cancel Sell", "Stock Plan Activity") + tuple(DIVS))
 
+def cli_convert_same(ctx, cases, r):
+    """`cgt-tool convert schwab` prints what the library converter returns (timestamp line apart), warnings on stderr, for a sample of the exports"""
+    root = os.path.join(build.CACHE, "run", "c18cli-%d" % os.getpid()); shutil.rmtree(root, ignore_errors=True); os.makedirs(root)
+    try:
+        for cid in list(cases)[:ctx.n(40, 600)]:
+            rows, aw = cases[cid]; lib = r[cid]
+            wd = os.path.join(root, cid); os.makedirs(wd)
+            open(os.path.join(wd, "tx.json"), "w").write(json.dumps({"BrokerageTransactions": rows}))
+            args = ["convert", "schwab", "tx.json"]
+            if aw is not None: open(os.path.join(wd, "aw.json"), "w").write(json.dumps(aw)); args += ["--awards", "aw.json"]
+            p = subprocess.run([build.CLI] + args, cwd=wd, stdout=subprocess.PIPE, stderr=subprocess.PIPE, text=True, env=dict(build.ENV, HOME=wd), timeout=120)
+            ctx.evaluations += 1; ctx.count("cli_convert_exit", p.returncode)
+            body = "\n".join(l for l in p.stdout.split("\n") if not l.startswith("# Converted: ")).rstrip("\n")
+            bad = None
+            if lib.get("ok") != (p.returncode == 0): bad = "library %s, command exit %d: %s" % ("accepts" if lib.get("ok") else "refuses (%s)" % lib.get("kind"), p.returncode, p.stderr[-160:])
+            elif lib.get("ok") and body != lib["content"].rstrip("\n"): bad = "output differs"
+            elif lib.get("ok") and p.stderr.count("WARNING:") != len(lib.get("warnings", [])): bad = "%d warnings on stderr, the library returns %d" % (p.stderr.count("WARNING:"), len(lib.get("warnings", [])))
+            if bad:
+                ctx.violation("`cgt-tool convert schwab` does not deliver what the library converter returns: %s" % bad,
+                              {"rows": rows, "awards": aw, "cli_stdout": p.stdout[-1200:], "cli_stderr": p.stderr[-400:], "library": lib}, found_input=True); return
+    finally:
+        shutil.rmtree(root, ignore_errors=True)
+
 def k_c18(ctx):
     rng = ctx.rng
     cases = {}
     for i in range(ctx.n(1200, 30000)):
         cases["e%d" % i] = gen_export(rng, with_rsu=(i % 5 == 0), hostile=0.04 if i % 3 == 0 else 0)
     m, r = both(cases)
+    cli_convert_same(ctx, cases, r)
     variants = {}
     for cid, (rows, aw) in cases.items():
         ctx.evaluations += 1; ctx.traces += 1
